@@ -98,11 +98,19 @@ def check_structure(chk, m, L, N, I):
                     root = ptr_parts(slot)[0]
                     if iter_arg and root[0] == "ld" and root[1] == paths.mkptr(("arg", iter_arg[0]), I["prevnext"]):
                         cmp_ = None
+                        first_clear = min([j for j, x in enumerate(ev) if x.kind == "store" and ptr_parts(x.ptr) == (old, next_o, ())],
+                                          default=len(ev))
+                        succ_before = [x.val for x in ev[:first_clear] if x.kind == "load" and ptr_parts(x.ptr) == (old, next_o, ())]
                         for c, taken, inst in p.conds:
                             cc = strip_casts(c)
                             if cc[0] == "icmp" and cc[1] in ("eq", "ne"):
                                 sides = (cc[2], cc[3])
                                 if old in sides and any(s[0] == "ld" and is_tail_ptr(s[1]) for s in sides):
+                                    cmp_ = (cc[1] == "eq") == bool(taken)
+                                # the same question asked the other way: in a well-formed list (N1/N2) the tail is the one
+                                # node whose next is NULL, so "the victim had no successor" (read before it is cleared) is
+                                # "the victim is the tail"
+                                elif ("null",) in sides and any(strip_casts(s) in succ_before for s in sides):
                                     cmp_ = (cc[1] == "eq") == bool(taken)
                         if cmp_ is None:
                             chk.ob("N3.tail-on-removal", pid, False,
